@@ -57,6 +57,20 @@ CONFIGS = {
     'obj_c_client': ('obj_c_client', ['-m', 'Routes', '-c', 'Client', '-t', 'Transport', '-y', CLIENT_ARGS_OBJC,
                                       '-z', STYLE_TO_REQUEST_OBJC, '-w', 'user'], {}, True),
 }
+# further JavaScript / TypeScript option sets (C16); attribute names are the ones the generic
+# route schemas of sv.gen draw most often (SNAKE pool) plus those of the 'client' schema
+_ATTR_COMMENTS = ['-a', 'style', '-a', 'is_preview', '-a', 'name', '-a', 'path', '-a', 'size', '-a', 'count',
+                  '-a', 'mode', '-a', 'value', '-a', 'flag', '-a', 'data', '-a', 'info', '-a', 'kind']
+CONFIGS.update({
+    'js_client_reqopts': ('js_client', ['routes.js', '--request-options'], {}, False),
+    'js_client_attrs': ('js_client', ['routes.js', '-c', 'Api'] + _ATTR_COMMENTS, {}, False),
+    'tsd_types_export': ('tsd_types', ['types_tpl.d.ts', 'types.d.ts', '--export-namespaces'],
+                         {'types_tpl.d.ts': '// header\n/*TYPES*/\n// footer\n'}, False),
+    'tsd_types_per_ns_prefix': ('tsd_types', ['types_tpl.d.ts', '-p', 'pkg/'],
+                                {'types_tpl.d.ts': '/*TYPES*/\n'}, False),
+    'tsd_client_attrs': ('tsd_client', ['client_tpl.d.ts', 'client.d.ts', '--wrap-response-in', 'Resp'] + _ATTR_COMMENTS,
+                         {'client_tpl.d.ts': 'declare class Api {\n/*ROUTES*/\n}\n'}, False),
+})
 ALL = sorted(CONFIGS)
 GENERIC = [b for b in ALL if not CONFIGS[b][3]]      # run on any schema
 SWIFT_OBJC = [b for b in ALL if CONFIGS[b][3]]
